@@ -648,8 +648,16 @@ def render(c, M, pieces, st, cov=(), mode=None, shuffle=True):
                 rel = "f%d.graphql" % i
                 if mode == "dir":
                     rel = os.path.join(c.choice(["", "a", "a/b"]), "f%d.%s" % (i, c.choice(["graphql", "sdl"])))
-                files.append([rel, "\n\n".join(g) + "\n"])
+                content = "\n\n".join(g) + "\n"
+                # files need not end with a newline, and may end with a comment or a bare name token
+                ending = c.weighted([(5, "newline"), (3, "none"), (2, "comment")])
+                if ending == "none":
+                    content = content.rstrip("\n")
+                elif ending == "comment":
+                    content = content + "# end of file"
+                files.append([rel, content])
             spec["files"] = files
+            spec["tags"] = list(spec["tags"]) + sorted({"file_without_trailing_newline"} if any(not f[1].endswith("\n") for f in files) else set())
     return spec
 
 
